@@ -180,11 +180,14 @@ func ruleO2(c *Ctx) {
 					c.trivial(key, pos, "compile.Expr wraps the expression in a return statement and delegates to compile.File; Expr's own callers are checked")
 					continue
 				}
-				if !o2Callers[fnName(outermost(fn))] {
-					c.viol(key, pos, "compile."+f.Name()+" is called from a function that is not one of the known entry points (FileProgram, ExecREPLChunk, makeExprFunc): a tree might be compiled without having been resolved")
-					continue
+				// dominated by the nil-error edge of a resolve.* call here, or - if this is a
+				// private helper - at every one of its call sites (recursively)
+				if ok, why := resolvedBefore(c.P, fn, in, 0); ok {
+					c.ok(key, pos, why)
+				} else {
+					c.viol(key, pos, "the call is not dominated by a successful resolve.File/REPLChunk/ExprOptions ("+why+"): an unresolved or rejected tree can reach the compiler (which panics or miscompiles)")
 				}
-				// dominated by the nil-error edge of a resolve.* call
+				continue
 				okDom := false
 				eachInstr(fn, func(in2 ssa.Instruction) {
 					rc, ok := in2.(*ssa.Call)
@@ -644,4 +647,60 @@ func ruleO7(c *Ctx) {
 			}
 		}
 	}
+}
+
+// resolvedBefore: is instruction `at` of fn dominated by the success edge of a
+// resolve call, directly or (for an unexported helper) at all of its call sites?
+func resolvedBefore(p *Prog, fn *ssa.Function, at ssa.Instruction, depth int) (bool, string) {
+	okDom := false
+	eachInstr(fn, func(in2 ssa.Instruction) {
+		rc, ok := in2.(*ssa.Call)
+		if !ok {
+			return
+		}
+		cal := rc.Call.StaticCallee()
+		if cal == nil || fnPkgPath(cal) != modPath+"/resolve" {
+			return
+		}
+		var errv ssa.Value = rc
+		if tup, ok := rc.Type().(*types.Tuple); ok {
+			errv = nil
+			for _, r := range *rc.Referrers() {
+				if ex, ok := r.(*ssa.Extract); ok && ex.Index == tup.Len()-1 {
+					errv = ex
+				}
+			}
+		}
+		if errv != nil && dominatedByNilErr(at.Block(), errv) {
+			okDom = true
+		}
+	})
+	if okDom {
+		return true, "dominated by the success edge of a resolve call in " + fnName(fn)
+	}
+	top := outermost(fn)
+	if depth > 3 || top.Object() == nil || top.Object().Exported() {
+		return false, "no dominating successful resolve call in " + fnName(fn)
+	}
+	n := 0
+	for _, g := range p.Funcs {
+		var bad string
+		eachInstr(g, func(in ssa.Instruction) {
+			ci, ok := in.(ssa.CallInstruction)
+			if !ok || ci.Common().StaticCallee() != top || bad != "" {
+				return
+			}
+			n++
+			if ok2, why := resolvedBefore(p, g, in, depth+1); !ok2 {
+				bad = why
+			}
+		})
+		if bad != "" {
+			return false, bad
+		}
+	}
+	if n == 0 {
+		return false, "helper " + fnName(top) + " has no static callers"
+	}
+	return true, fmt.Sprintf("private helper %s: all %d call sites follow a successful resolve call", fnName(top), n)
 }
